@@ -153,19 +153,38 @@ def cargo_build(profile, hooks=True, features=None):
     binp = os.path.join(tdir, "release" if profile == "release" else "debug", "nbharness")
     return rc, out, binp
 
-def run_harness(binp, lines, timeout_per_batch=60, tags=False, extra_args=()):
+def _limit_memory():
+    """a request that makes the implementation allocate without bound (an iterator that never ends feeding a
+    `collect`) must die quickly instead of filling the machine: 12 GiB of address space per harness process"""
+    try:
+        import resource
+        resource.setrlimit(resource.RLIMIT_AS, (12 << 30, 12 << 30))
+    except Exception:  # noqa: BLE001
+        pass
+
+def run_harness(binp, lines, timeout_per_batch=45, tags=False, extra_args=()):
     """run request lines; isolates crashes/timeouts to single lines. returns list of result strings"""
     results = [None] * len(lines)
     start = 0
     crashes = 0
+    n_timeouts = 0
     while start < len(lines):
         chunk = lines[start:]
         cmd = [binp] + (["--tags"] if tags else []) + list(extra_args)
         if crashes:
             cmd.append("--flush")
+        # a change that makes MANY requests hang must not turn the check into hours of waiting: after the first
+        # time-out the per-batch budget shrinks, after six the rest of the stream is skipped (each time-out is already
+        # reported as a disagreement)
+        tpb = timeout_per_batch if n_timeouts == 0 else min(timeout_per_batch, 20)
+        if n_timeouts >= 6:
+            for i in range(start, len(lines)):
+                results[i] = "skipped"
+            break
         try:
             p = subprocess.run(cmd, input="\n".join(chunk) + "\n", stdout=subprocess.PIPE, stderr=subprocess.DEVNULL,
-                               text=True, timeout=timeout_per_batch * (1 + len(chunk) // 20000))
+                               text=True, timeout=(tpb * (1 + len(chunk) // 20000)) if n_timeouts == 0 else tpb,
+                               preexec_fn=_limit_memory)
             out = p.stdout.split("\n")
             if out and out[-1] == "":
                 out.pop()
@@ -189,6 +208,7 @@ def run_harness(binp, lines, timeout_per_batch=60, tags=False, extra_args=()):
         results[start:start + n] = out[:n]
         if rc == "timeout":
             cls = "timeout"
+            n_timeouts += 1
         elif isinstance(rc, int) and rc < 0:
             try:
                 cls = "fault:" + signal.Signals(-rc).name
